@@ -66,7 +66,7 @@ class ScriptedOptimizer(Optimizer):
         if mask is not None:
             x0 = x0[mask]
         log = self._ctx.backend_log if self._ctx is not None else []
-        log.append({"ev": "start", "x0": x0.copy(), "n_free": int(x0.size)})
+        log.append({"ev": "start", "x0": x0.copy(), "n_free": int(x0.size), "config": self._config})
         for idx, entry in enumerate(self._script):
             op = entry["op"]
             pts = entry["pts"]
@@ -76,7 +76,7 @@ class ScriptedOptimizer(Optimizer):
                 x = self._point(pts[0], x0)
             rf = op in ("f", "fg")
             rg = op in ("g", "fg")
-            rec = {"ev": "request", "i": idx, "op": op, "x": x.copy(), "rf": rf, "rg": rg}
+            rec = {"ev": "request", "i": idx, "op": op, "x": x.copy(), "rf": rf, "rg": rg, "config": self._config}
             log.append(rec)
             functions, gradients = self._callback(x, return_functions=rf, return_gradients=rg)
             rec["functions"] = np.array(functions, copy=True)
